@@ -142,7 +142,8 @@ theorem chainStep_sound (F : Facts) (σ : State) (hF : Holds F σ) (A : List Ato
     HoldsA (chainStep F A) σ := by
   unfold chainStep
   suffices ∀ (G : Facts), (∀ c ∈ G, c.eval σ = true) → ∀ acc, HoldsA acc σ →
-      HoldsA (G.foldl (fun acc c => if c.pre.all (entailsA acc) then acc ++ c.post.filter (fun a => !(acc.contains a)) else acc) acc) σ from
+      HoldsA (G.foldl (fun acc c => if c.pre.isEmpty then acc
+        else if c.pre.all (entailsA acc) then acc ++ c.post.filter (fun a => !(acc.contains a)) else acc) acc) σ from
     this F hF A hA
   intro G
   induction G with
@@ -151,18 +152,21 @@ theorem chainStep_sound (F : Facts) (σ : State) (hF : Holds F σ) (A : List Ato
     intro hG acc hacc
     simp only [List.foldl_cons]
     apply ih (fun c' hc' => hG c' (List.mem_cons_of_mem _ hc'))
-    by_cases hp : c.pre.all (entailsA acc) = true
-    · simp only [hp, if_true]
-      have hpre := all_entailsA_sound acc σ hacc c.pre hp
-      have hc := hG c (List.mem_cons_self ..)
-      unfold Clause.eval at hc
-      simp only [hpre, Bool.not_true, Bool.false_or] at hc
-      intro a ha
-      rcases List.mem_append.mp ha with h | h
-      · exact hacc a h
-      · exact (List.all_eq_true.mp hc) a (List.mem_filter.mp h).1
-    · simp only [hp]
-      exact hacc
+    by_cases he : c.pre.isEmpty = true
+    · simp only [he, if_true]; exact hacc
+    · simp only [he, Bool.false_eq_true, if_false]
+      by_cases hp : c.pre.all (entailsA acc) = true
+      · simp only [hp, if_true]
+        have hpre := all_entailsA_sound acc σ hacc c.pre hp
+        have hc := hG c (List.mem_cons_self ..)
+        unfold Clause.eval at hc
+        simp only [hpre, Bool.not_true, Bool.false_or] at hc
+        intro a ha
+        rcases List.mem_append.mp ha with h | h
+        · exact hacc a h
+        · exact (List.all_eq_true.mp hc) a (List.mem_filter.mp h).1
+      · simp only [hp]
+        exact hacc
 
 theorem chain_sound (F : Facts) (σ : State) (hF : Holds F σ) : ∀ n A, HoldsA A σ → HoldsA (chain F n A) σ := by
   intro n
@@ -591,14 +595,14 @@ def Post (r : Except Fault Flow) (Fn Fr : Option Facts) : Prop :=
   | .ok (.norm σ') => ∃ G, Fn = some G ∧ Holds G σ'
   | .ok (.retd σ') => ∃ G, Fr = some G ∧ Holds G σ'
 
-def Main (P : Prog) (O : Oracle) (n : Nat) : Prop :=
-  ∀ m F s Fn Fr σ, check P m F s = some (Fn, Fr) → Holds F σ → Post (run P O n s σ) Fn Fr
+def Main (P : Prog) (X I : Nat → List Var) (C : Nat → Bool) (O : Oracle) (n : Nat) : Prop :=
+  ∀ m F s Fn Fr σ, check P X I C m F s = some (Fn, Fr) → Holds F σ → Post (run P O n s σ) Fn Fr
 
-def IterOK (P : Prog) (O : Oracle) (n : Nat) : Prop :=
+def IterOK (P : Prog) (X I : Nat → List Var) (C : Nat → Bool) (O : Oracle) (n : Nat) : Prop :=
   ∀ m m' i cnt inv body L (Fk : Facts) Bn Br k σ,
     assigned P m' body = some L →
     (∀ c ∈ Fk, ∀ x ∈ c.vars, x ≠ i ∧ x ∉ L) →
-    check P m (sat (union (union Fk (inv.map fact)) [fact (.lt i cnt)])) body = some (Bn, Br) →
+    check P X I C m (sat (union (union Fk (inv.map fact)) [fact (.lt i cnt)])) body = some (Bn, Br) →
     invKept inv Bn = true →
     (∀ a ∈ inv, i ∉ a.vars) → i ≠ cnt → Holds Fk σ → HoldsA inv σ →
     Post (run P O n (.iter i cnt k body) σ) (some (union Fk (inv.map fact))) Br
@@ -614,7 +618,7 @@ theorem post_mono_ret {r : Except Fault Flow} {Fn Fr Fr' : Option Facts}
   | .error .fuel, _ => simp [Post]
   | .error (.unknownFn f), _ => simp [Post]
 
-theorem iter_step (P : Prog) (O : Oracle) (n : Nat) (hM : Main P O n) (hI : IterOK P O n) : IterOK P O (n + 1) := by
+theorem iter_step (P : Prog) (X I : Nat → List Var) (C : Nat → Bool) (O : Oracle) (n : Nat) (hM : Main P X I C O n) (hI : IterOK P X I C O n) : IterOK P X I C O (n + 1) := by
   intro m m' i cnt inv body L Fk Bn Br k σ hasg hFk hchk hBn hi hne hk0 hinv
   simp only [run]
   by_cases hk : k < σ cnt
@@ -660,7 +664,7 @@ theorem iter_step (P : Prog) (O : Oracle) (n : Nat) (hM : Main P O n) (hI : Iter
   · simp only [hk, if_false]
     exact ⟨_, rfl, holds_union hk0 ((holds_facts inv σ).mpr hinv)⟩
 
-theorem main_step (P : Prog) (O : Oracle) (n : Nat) (hM : Main P O n) (hI : IterOK P O n) : Main P O (n + 1) := by
+theorem main_step (P : Prog) (X I : Nat → List Var) (C : Nat → Bool) (hC : ClosedOK P X I C) (O : Oracle) (n : Nat) (hM : Main P X I C O n) (hI : IterOK P X I C O n) : Main P X I C O (n + 1) := by
   intro m F s Fn Fr σ hchk hF
   cases m with
   | zero => simp [check] at hchk
@@ -673,7 +677,7 @@ theorem main_step (P : Prog) (O : Oracle) (n : Nat) (hM : Main P O n) (hI : Iter
   | seq a b =>
     simp only [check] at hchk
     simp only [run]
-    generalize hca : check P m F a = ca at hchk
+    generalize hca : check P X I C m F a = ca at hchk
     match ca, hchk with
     | some (none, Fr1), hchk =>
       simp only [Option.some.injEq, Prod.mk.injEq] at hchk
@@ -689,7 +693,7 @@ theorem main_step (P : Prog) (O : Oracle) (n : Nat) (hM : Main P O n) (hI : Iter
       | .error (.unknownFn f), _ => simp [Post]
     | some (some G, Fr1), hchk =>
       simp only at hchk
-      generalize hcb : check P m G b = cb at hchk
+      generalize hcb : check P X I C m G b = cb at hchk
       match cb, hchk with
       | some (Gn, Gr), hchk =>
         simp only [Option.some.injEq, Prod.mk.injEq] at hchk
@@ -773,9 +777,9 @@ theorem main_step (P : Prog) (O : Oracle) (n : Nat) (hM : Main P O n) (hI : Iter
     simp only [run]
     have hcs := cond_sound F σ hF c
     generalize hct : (if inconsistent (sat (union F ((c.pos F).map fact))) then some (none, none)
-      else check P m (sat (union F ((c.pos F).map fact))) t) = ct at hchk
+      else check P X I C m (sat (union F ((c.pos F).map fact))) t) = ct at hchk
     generalize hce : (if inconsistent (sat (union F ((c.neg F).map fact))) then some (none, none)
-      else check P m (sat (union F ((c.neg F).map fact))) e) = ce at hchk
+      else check P X I C m (sat (union F ((c.neg F).map fact))) e) = ce at hchk
     match ct, ce, hchk with
     | some (Tn, Tr), some (En, Er), hchk =>
       simp only [Option.some.injEq, Prod.mk.injEq] at hchk
@@ -853,24 +857,72 @@ theorem main_step (P : Prog) (O : Oracle) (n : Nat) (hM : Main P O n) (hI : Iter
     | none => simp [hP] at hchk
     | some body =>
       simp only [hP] at hchk ⊢
-      generalize hcb : check P m F body = cb at hchk
-      match cb, hchk with
-      | some (Bn, Br), hchk =>
-        simp only [Option.some.injEq, Prod.mk.injEq] at hchk
-        obtain ⟨rfl, rfl⟩ := hchk
-        have hb := hM m F body _ _ σ hcb hF
-        generalize run P O n body σ = r at hb
-        match r, hb with
-        | .ok (.norm σ'), hb => exact meet_left hb
-        | .ok (.retd σ'), hb => exact meet_right hb
-        | .error (.panic x y), hb => exact absurd hb (by simp [Post])
-        | .error (.contract f), _ => simp [Post]
-        | .error .fuel, _ => simp [Post]
-        | .error (.unknownFn f), _ => simp [Post]
+      cases hasg : assigned P m body with
+      | none => simp [hasg] at hchk
+      | some L =>
+        simp only [hasg] at hchk
+        have hfr := frame P O n m body L σ
+        have hkeep : ∀ fl, run P O n body σ = .ok fl →
+            Holds (F.filter (fun c => !(c.vars.any (fun x => L.contains x)))) (stOf fl) := by
+          intro fl hrun c hc
+          obtain ⟨hc1, hc2⟩ := List.mem_filter.mp hc
+          rw [clause_congr c (stOf fl) σ (fun y hy => by
+            apply hfr fl hasg hrun y
+            intro hyL
+            simp only [Bool.not_eq_true', List.any_eq_false] at hc2
+            have := hc2 y hy
+            simp [hyL] at this)]
+          exact hF c hc1
+        by_cases hcl : C f = true
+        · -- closed function: safe from no assumptions
+          simp only [hcl, if_true, Option.some.injEq, Prod.mk.injEq] at hchk
+          obtain ⟨rfl, rfl⟩ := hchk
+          obtain ⟨body', m', hP', hok⟩ := hC f hcl
+          rw [hP] at hP'
+          simp only [Option.some.injEq] at hP'
+          subst hP'
+          cases hck : check P X I C m' [] body with
+          | none => simp [hck] at hok
+          | some R0 =>
+            obtain ⟨Bn0, Br0⟩ := R0
+            have hb := hM m' [] body Bn0 Br0 σ hck (fun c hc => by simp at hc)
+            generalize hr : run P O n body σ = r at hb hkeep
+            match r, hb with
+            | .ok (.norm σ'), _ => exact ⟨_, rfl, hkeep _ rfl⟩
+            | .ok (.retd σ'), _ => exact ⟨_, rfl, hkeep _ rfl⟩
+            | .error (.panic x y), hb => exact absurd hb (by simp [Post])
+            | .error (.contract f), _ => simp [Post]
+            | .error .fuel, _ => simp [Post]
+            | .error (.unknownFn f), _ => simp [Post]
+        · simp only [hcl, Bool.false_eq_true, if_false] at hchk
+          generalize hcb : check P X I C m (F.filter (fun c => c.vars.all (fun x => (I f).contains x))) body = cb at hchk
+          match cb, hchk with
+          | some (Bn, Br), hchk =>
+            simp only at hchk
+            have hFin : Holds (F.filter (fun c => c.vars.all (fun x => (I f).contains x))) σ :=
+              fun c hc => hF c (List.mem_filter.mp hc).1
+            have hb := hM m _ body _ _ σ hcb hFin
+            generalize hr : run P O n body σ = r at hb hkeep
+            have hfin : ∀ σ', (∃ G, meet Bn Br = some G ∧ Holds G σ') →
+                Holds (F.filter (fun c => !(c.vars.any (fun x => L.contains x)))) σ' →
+                ∃ G, Fn = some G ∧ Holds G σ' := by
+              intro σ' ⟨G, hG1, hG2⟩ hk
+              rw [hG1] at hchk
+              simp only [Option.some.injEq, Prod.mk.injEq] at hchk
+              refine ⟨_, hchk.1.symm, ?_⟩
+              apply sat_holds
+              exact holds_union hk (fun c hc => hG2 c (List.mem_filter.mp hc).1)
+            match r, hb with
+            | .ok (.norm σ'), hb => exact hfin σ' (meet_left hb) (hkeep _ rfl)
+            | .ok (.retd σ'), hb => exact hfin σ' (meet_right hb) (hkeep _ rfl)
+            | .error (.panic x y), hb => exact absurd hb (by simp [Post])
+            | .error (.contract f), _ => simp [Post]
+            | .error .fuel, _ => simp [Post]
+            | .error (.unknownFn f), _ => simp [Post]
   | scope body =>
     simp only [check] at hchk
     simp only [run]
-    generalize hcb : check P m F body = cb at hchk
+    generalize hcb : check P X I C m F body = cb at hchk
     match cb, hchk with
     | some (Bn, Br), hchk =>
       simp only [Option.some.injEq, Prod.mk.injEq] at hchk
@@ -889,29 +941,29 @@ theorem main_step (P : Prog) (O : Oracle) (n : Nat) (hM : Main P O n) (hI : Iter
     obtain ⟨rfl, rfl⟩ := hchk
     simp only [run]; exact ⟨F, rfl, hF⟩
 
-theorem main_and_iter (P : Prog) (O : Oracle) : ∀ n, Main P O n ∧ IterOK P O n := by
+theorem main_and_iter (P : Prog) (X I : Nat → List Var) (C : Nat → Bool) (hC : ClosedOK P X I C) (O : Oracle) : ∀ n, Main P X I C O n ∧ IterOK P X I C O n := by
   intro n
   induction n with
   | zero =>
     constructor
     · intro m F s Fn Fr σ _ _; simp [run, Post]
     · intro m m' i cnt inv body L Fk Bn Br k σ _ _ _ _ _ _ _ _; simp [run, Post]
-  | succ n ih => exact ⟨main_step P O n ih.1 ih.2, iter_step P O n ih.1 ih.2⟩
+  | succ n ih => exact ⟨main_step P X I C hC O n ih.1 ih.2, iter_step P X I C O n ih.1 ih.2⟩
 
 /-- SOUNDNESS: a skeleton accepted by the checker never panics. -/
-theorem check_sound (P : Prog) (O : Oracle) (n m : Nat) (F : Facts) (s : Stmt) (Fn Fr : Option Facts) (σ : State)
-    (hc : check P m F s = some (Fn, Fr)) (hF : Holds F σ) : Post (run P O n s σ) Fn Fr :=
-  (main_and_iter P O n).1 m F s Fn Fr σ hc hF
+theorem check_sound (P : Prog) (X I : Nat → List Var) (C : Nat → Bool) (hC : ClosedOK P X I C) (O : Oracle) (n m : Nat) (F : Facts) (s : Stmt) (Fn Fr : Option Facts) (σ : State)
+    (hc : check P X I C m F s = some (Fn, Fr)) (hF : Holds F σ) : Post (run P O n s σ) Fn Fr :=
+  (main_and_iter P X I C hC O n).1 m F s Fn Fr σ hc hF
 
 /-- corollary used by the property theorems: accepted from no assumptions ⇒ never `Fault.panic` -/
-theorem safe_never_panics (P : Prog) (s : Stmt) (fuel : Nat) (h : safe P fuel s = true)
+theorem safe_never_panics (P : Prog) (X I : Nat → List Var) (C : Nat → Bool) (hC : ClosedOK P X I C) (s : Stmt) (fuel : Nat) (h : safe P X I C fuel s = true)
     (O : Oracle) (n : Nat) (σ : State) (kind text : String) : run P O n s σ ≠ .error (.panic kind text) := by
   unfold safe at h
-  cases hc : check P fuel [] s with
+  cases hc : check P X I C fuel [] s with
   | none => simp [hc] at h
   | some r =>
     obtain ⟨Fn, Fr⟩ := r
-    have := check_sound P O n fuel [] s Fn Fr σ hc (fun c hc => by simp at hc)
+    have := check_sound P X I C hC O n fuel [] s Fn Fr σ hc (fun c hc => by simp at hc)
     intro heq
     rw [heq] at this
     exact this
